@@ -18,6 +18,33 @@ def _is_holder_cmp(e, b, client='param(client_id)'):
     return (lo == {client} and all(x.endswith('.holder') for x in ro)) or (ro == {client} and all(x.endswith('.holder') for x in lo))
 
 
+def _on_holder_edge(g, b, client='param(client_id)'):
+    """do the guards say `client_id == holder`?  (== on the true edge, != on the false edge, with or without `!`)"""
+    for it in g:
+        if it[0] != 'if':
+            continue
+        for c in (conjuncts(it[1]) if it[2] is True else [it[1]]):
+            c, pol = strip_not(c)
+            if c.get('k') == 'binary' and c.get('op') in ('Eq', 'Ne') and _is_holder_cmp(dict(c, op='Eq'), b, client):
+                eq_holds = ((c['op'] == 'Eq') == pol) == it[2]
+                if eq_holds:
+                    return True
+    return False
+
+
+def _on_foreign_edge(g, b, client='param(client_id)'):
+    """do the guards say `client_id != holder`?"""
+    for it in g:
+        if it[0] != 'if':
+            continue
+        for c in (conjuncts(it[1]) if it[2] is True else [it[1]]):
+            c, pol = strip_not(c)
+            if c.get('k') == 'binary' and c.get('op') in ('Eq', 'Ne') and _is_holder_cmp(dict(c, op='Eq'), b, client):
+                if (((c['op'] == 'Eq') == pol) == it[2]) is False:
+                    return True
+    return False
+
+
 def rule_a(prog, rep):
     rep.rule('C06.a', 'T1+T2', 'the holder changes only by hand-over: Lock.holder is written only by Lock::new (from its parameter) '
              'and, inside Lock::release, on the true edge of `client_id == self.holder`, with the id popped from the front of '
@@ -32,7 +59,7 @@ def rule_a(prog, rep):
                 n += 1
                 b = b or Bindings(crate, f)
                 g = guards(anc + (nd,))
-                on_holder_edge = any(it[0] == 'if' and it[2] is True and any(_is_holder_cmp(c, b) for c in conjuncts(it[1])) for it in g)
+                on_holder_edge = _on_holder_edge(g, b)
                 src = b.origins(nd['r'])
                 from_front = any('pop_front' in x for x in src)
                 if f.path == f'{LOCK}::release' and on_holder_edge and from_front:
@@ -221,29 +248,62 @@ def rule_c(prog, rep):
         rep.violation('C06.c', 'Store::lock', f.loc, '; '.join(res), key='C06.c/lock/' + '|'.join(res))
     else:
         rep.ok('C06.c', 'Store::lock', f.loc, 'free -> install+record+Ok; own -> Ok; foreign -> Err(KeyIsLocked), holder untouched')
-    # Lock::release
+    # Lock::release - evaluated on paths, so that nested-if, guard-clause and match forms are all understood
     r = crate.fn(f'{LOCK}::release')
     rb = Bindings(crate, r)
-    ifs = [nd for nd, a in crate.walk_fn(r) if nd.get('k') == 'if' and _is_holder_cmp(nd['cond'], rb)]
+
+    def rel_alias(c):
+        if c.get('k') == 'binary' and c.get('op') in ('Eq', 'Ne') and _is_holder_cmp(dict(c, op='Eq'), rb):
+            return ('holder', c['op'] == 'Ne')
+        return None
+
+    def rel_classify(nd, anc):
+        k = nd.get('k')
+        if k == 'call':
+            sh = short(callee(nd))
+            if sh == 'pop_front':
+                return 'pop'
+            if sh == 'retain':
+                return 'retain'
+            if sh == 'send':
+                return 'send'
+        if k == 'assign' and nd['l'].get('k') == 'field' and nd['l']['name'] == 'holder':
+            return 'set_holder'
+        if k == 'tuple' and len(nd['elems']) == 2 and nd['elems'][0].get('k') == 'lit':
+            second = nd['elems'][1]
+            kind = short(ctor_name(second) or '') or ('None' if str(second.get('path') or second.get('ctor_of') or '').endswith('None') else '?')
+            return f"ret:{nd['elems'][0]['v']['v']},{kind}"
+        return None
+    rp = Tracer(crate, rel_classify, cond_alias=rel_alias, closure_mode=lambda c_, cl: 'skip').run_fn(r)
     res = []
-    if len(ifs) != 1:
-        res.append('no single `client_id == self.holder` decision')
-    else:
-        def tuples(e):
-            return [x for x, _ in walk(e) if x.get('k') == 'tuple' and len(x['elems']) == 2 and x['elems'][0].get('k') == 'lit']
-        th, el = tuples(ifs[0]['then']), tuples(ifs[0].get('else', {}))
-        tvals = sorted((x['elems'][0]['v']['v'], short(ctor_name(x['elems'][1]) or (x['elems'][1].get('k') == 'call' and short(callee(x['elems'][1])) or '?'))) for x in th)
-        evals = sorted((x['elems'][0]['v']['v'], short(ctor_name(x['elems'][1]) or (x['elems'][1].get('k') == 'call' and short(callee(x['elems'][1])) or '?'))) for x in el)
-        if tvals != [(True, 'None'), (True, 'Some')]:
-            res.append(f'holder branch yields {tvals}')
-        if evals != [(False, 'Some')]:
-            res.append(f'non-holder branch yields {evals}')
-        if not any(x.get('k') == 'call' and short(callee(x)) == 'retain' for x, _ in walk(ifs[0].get('else', {}))):
-            res.append('non-holder branch does not leave the queue')
-        if any(x.get('k') == 'call' and short(callee(x)) in ('pop_front', 'send') for x, _ in walk(ifs[0].get('else', {}))):
-            res.append('non-holder branch hands the lock over')
+    seen_rows = set()
+    for (ex, t, v) in rp:
+        tb = [base(x) for x in t]
+        hold = '?holder=1' in tb
+        nohold = '?holder=0' in tb
+        rets = [x for x in tb if x.startswith('ret:')]
+        if hold == nohold:
+            res.append('a path does not decide `client_id == self.holder` exactly once')
+            continue
+        if hold and 'pop@Some' in tb:
+            seen_rows.add('hand-over')
+            if rets != ['ret:True,Some'] or 'set_holder' not in tb or 'retain' in tb:
+                res.append(f'holder with a waiter: {[x for x in tb if "@" not in x and not x.startswith("?")]}')
+        elif hold and 'pop@None' in tb:
+            seen_rows.add('free')
+            if rets != ['ret:True,None'] or 'set_holder' in tb or 'send' in tb or 'send*' in t:
+                res.append(f'holder without waiter: {[x for x in tb if "@" not in x and not x.startswith("?")]}')
+        elif hold:
+            res.append('the holder branch does not consult the queue')
+        else:
+            seen_rows.add('foreign')
+            if rets != ['ret:False,Some'] or 'retain' not in tb or 'pop' in tb or 'set_holder' in tb or any(base(x) == 'send' for x in t):
+                res.append(f'non-holder: {[x for x in tb if "@" not in x and not x.startswith("?")]}')
+    if seen_rows != {'hand-over', 'free', 'foreign'}:
+        res.append(f'rows found: {sorted(seen_rows)}')
+    res = sorted(set(res))
     if res:
-        rep.violation('C06.c', 'Lock::release', r.loc, '; '.join(res), key='C06.c/release/' + '|'.join(res))
+        rep.violation('C06.c', 'Lock::release', r.loc, '; '.join(res), key='C06.c/release/' + '|'.join(x.split(':')[0] for x in res))
     else:
         rep.ok('C06.c', 'Lock::release', r.loc, 'holder: (true, Some(next)|None); other: leave queue, (false, Some(holder))')
     # Store::unlock
@@ -310,7 +370,7 @@ def rule_d(prog, rep):
                     if any('pop_front' in x and '[1]' in x for x in src) and asg_before:
                         why = 'after `self.holder = id`, to the senders popped with that id'
                 elif f.path == f'{STORE}::acquire_lock':
-                    if any(it[0] == 'if' and it[2] is True and _is_holder_cmp(it[1], b) for it in g):
+                    if _on_holder_edge(g, b):
                         why = 'requester already is the holder'
                     else:
                         arm = [it for it in g if it[0] == 'match']
@@ -332,7 +392,7 @@ def rule_d(prog, rep):
     b = Bindings(crate, f)
     q = [(nd, anc) for nd, anc in crate.walk_fn(f) if nd.get('k') == 'call' and callee(nd) == f'{LOCK}::queue']
     good = len(q) == 1 and b.origins(q[0][0]['args'][1]) == {'param(client_id)'} and \
-        any(it[0] == 'if' and it[2] is False and _is_holder_cmp(it[1], b) for it in guards(q[0][1] + (q[0][0],)))
+        _on_foreign_edge(guards(q[0][1] + (q[0][0],)), b)
     if good:
         rep.ok('C06.d', 'acquire_lock:queue', loc(f, q[0][0]), 'a foreign requester is queued (client_id, tx)')
     else:
